@@ -59,6 +59,16 @@ pub fn arm_cancellation(k: usize) {
     VICTIM_WAKER.with(|w| *w.borrow_mut() = None);
 }
 
+/// Called by the explorer at the start of every execution: an execution that
+/// was abandoned half-way (deadlock, panic) must not leave its yield mask or
+/// an armed cancellation behind for the next execution on this OS thread -
+/// schedules are recorded by step number, and extra yields during set-up
+/// would shift them ("replay divergence" on another thread).
+pub fn reset_thread_state() {
+    set_yield_mask(0);
+    arm_cancellation(0);
+}
+
 pub fn cancellation_triggered() -> bool { TRIGGERED.with(Cell::get) }
 
 pub fn set_victim_waker(w: std::task::Waker) { VICTIM_WAKER.with(|x| *x.borrow_mut() = Some(w)); }
